@@ -260,7 +260,7 @@ def execute(trace, ctx=None):
     slow = {f['leaf'] for f in faults if f['kind'] == 'slow_leaf'}
     outer = [f['at'] for f in faults if f['kind'] == 'outer_cancel']
     faulty = bool(faults)
-    rounds = 2 if (trace['cfg'].get('rounds') == 2 and not faulty and not any(leaves[i]['kind'] == 'nested' for i in used)) else 1
+    rounds = 2 if (trace['cfg'].get('rounds') == 2 and not outer and not any(leaves[i]['kind'] == 'nested' for i in used)) else 1
 
     started = collections.Counter()
     finished = []           # completion order of leaf bodies
@@ -269,7 +269,7 @@ def execute(trace, ctx=None):
     objs = {}
 
     def delay_of(i, key='delay'):
-        return 3600 if i in slow else leaves[i].get(key, 0)
+        return 3600 if (i in slow and gen['n'] == 1) else leaves[i].get(key, 0)
 
     gen = {'n': 1}
     handles = {}
@@ -298,7 +298,7 @@ def execute(trace, ctx=None):
     def finish(i):
         finished.append(i)
         ev(i).set()
-        if i in raise_on:
+        if i in raise_on and gen['n'] == 1:
             res.fault('leaf_raise')
             raise exc_of.get(i, SimLeafError)(i)
         return result_of(i)
@@ -308,46 +308,46 @@ def execute(trace, ctx=None):
             return
         finished.append(i)
         ev(i).set()
-        if i in raise_on:
+        if i in raise_on and gen['n'] == 1:
             res.fault('leaf_raise')
             fut.set_exception(exc_of.get(i, SimLeafError)(i))
         else:
             fut.set_result(result_of(i))
 
-    async def c_sleep(i):
-        started[i] += 1
+    async def c_sleep(i, g_=1):
+        started[(i, g_)] += 1
         await asyncio.sleep(delay_of(i))
         return finish(i)
 
-    async def c_imm(i):
-        started[i] += 1
+    async def c_imm(i, g_=1):
+        started[(i, g_)] += 1
         return finish(i)
 
-    async def c_two(i, gate):
-        started[i] += 1
+    async def c_two(i, gate, g_=1):
+        started[(i, g_)] += 1
         await gate
         await asyncio.sleep(delay_of(i, 'delay2'))
         return finish(i)
 
-    async def c_dep(i, j):
-        started[i] += 1
+    async def c_dep(i, j, g_=1):
+        started[(i, g_)] += 1
         await ev(j).wait()
         await asyncio.sleep(0)
         return finish(i)
 
-    async def c_nested(i, sub):
-        started[i] += 1
+    async def c_nested(i, sub, g_=1):
+        started[(i, g_)] += 1
         v = await waiter(sub)
         finished.append(i)
         ev(i).set()
         return v
 
-    def gen_leaf(i):
+    def gen_leaf(i, g_=1):
         # a generator-based awaitable object (types.coroutine style) is not generated: python 3.12
         # no longer treats bare generators as awaitable.  'gen' is an async function that suspends
         # several times.
-        async def c(i=i):
-            started[i] += 1
+        async def c(i=i, g_=g_):
+            started[(i, g_)] += 1
             for _ in range(3):
                 await asyncio.sleep(0)
             await asyncio.sleep(delay_of(i))
@@ -366,13 +366,13 @@ def execute(trace, ctx=None):
         leaf = leaves[i]
         k = leaf['kind']
         if k == 'sleep':
-            o = c_sleep(i); coros.append((i, o))
+            o = c_sleep(i, gen['n']); coros.append((i, o, gen['n']))
         elif k == 'imm':
-            o = c_imm(i); coros.append((i, o))
+            o = c_imm(i, gen['n']); coros.append((i, o, gen['n']))
         elif k == 'gen':
-            o = gen_leaf(i); coros.append((i, o))
+            o = gen_leaf(i, gen['n']); coros.append((i, o, gen['n']))
         elif k == 'task':
-            o = loop.create_task(c_sleep(i))
+            o = loop.create_task(c_sleep(i, gen['n']))
         elif k == 'future':
             o = driver_future(i, delay_of(i))
         elif k == 'done':
@@ -383,7 +383,7 @@ def execute(trace, ctx=None):
         elif k == 'twostage':
             gate = loop.create_future()
             loop.call_later(delay_of(i), lambda g=gate: (not g.done()) and g.set_result(None))
-            o = c_two(i, gate); coros.append((i, o))
+            o = c_two(i, gate, gen['n']); coros.append((i, o, gen['n']))
         elif k == 'shared':
             j = leaf.get('of')
             if j is None or j not in objs or leaves[j]['kind'] not in ('future', 'done', 'task'):
@@ -393,17 +393,17 @@ def execute(trace, ctx=None):
         elif k == 'dep':
             j = leaf.get('on')
             if j is None or j not in used or j == i or leaves[j]['kind'] in ('shared', 'nested', 'dep'):
-                o = c_sleep(i)
+                o = c_sleep(i, gen['n'])
             else:
-                o = c_dep(i, j)
-            coros.append((i, o))
+                o = c_dep(i, j, gen['n'])
+            coros.append((i, o, gen['n']))
         elif k == 'nested':
             sub = build(leaf['sub']) if leaf.get('sub') is not None else []
-            o = c_nested(i, sub); coros.append((i, o))
+            o = c_nested(i, sub, gen['n']); coros.append((i, o, gen['n']))
         else:
             raise ValueError(k)
         objs[i] = o
-        if i in cancel_at and k != 'shared':
+        if i in cancel_at and k != 'shared' and gen['n'] == 1:
             def do_cancel(o=o, i=i):
                 target = o.fut if isinstance(o, _Custom) else o
                 if isinstance(target, asyncio.Future):
@@ -494,6 +494,28 @@ def execute(trace, ctx=None):
                     res.fault('outer_cancel')
                     loop.main_task.cancel()
             loop.call_later(at, do_outer)
+        if rounds == 2 and faulty:
+            # the first attempt may fail (an awaitable raises or is cancelled); the caller catches that, refills the
+            # same containers with fresh awaitables and waits again: the second attempt must be right
+            try:
+                r1 = await waiter(value)
+                box['r1_failed'] = False
+            except (SimLeafError, asyncio.CancelledError) as e_:
+                if isinstance(e_, asyncio.CancelledError) and loop.main_task.cancelling():
+                    raise
+                box['r1_failed'] = True
+                res.probe('second-round-after-failed-first')
+                # gather leaves the siblings of a failed awaitable running: a sensible caller lets them finish before
+                # it touches the containers they are reading
+                await asyncio.sleep(4000)
+            box['exp1'] = None
+            box['r1_ok'] = True
+            gen['n'] = 2
+            objs.clear(); done_events.clear()
+            recording['on'] = False
+            value2 = refill(structure)
+            r2 = await waiter(value2)
+            return ('two-rounds', None, r2)
         r1 = await waiter(value)
         if rounds == 2:
             box['exp1'] = expected(structure)
@@ -501,7 +523,7 @@ def execute(trace, ctx=None):
             box['r1_repr'] = repr(r1)[:300]
             _edit_empties(r1)        # the result belongs to the caller
             gen['n'] = 2
-            objs.clear(); started.clear(); done_events.clear()
+            objs.clear(); done_events.clear()
             recording['on'] = False
             value2 = refill(structure)
             r2 = await waiter(value2)
@@ -511,12 +533,14 @@ def execute(trace, ctx=None):
 
     outcome = loop.run_main(main)
     for i in slow:
-        if started[i] or leaves[i]['kind'] in ('future', 'custom', 'task'):
+        if started[(i, 1)] or leaves[i]['kind'] in ('future', 'custom', 'task'):
             res.fault('slow_leaf')
     # close never-started coroutines (avoids RuntimeWarning noise); remember them
     never = []
-    for i, c in coros:
-        if started[i] == 0:
+    last_gen = gen['n']
+    for i, c, g_ in coros:
+        # coroutines of a FAILED first round may legitimately never have been started (their gather was torn down)
+        if started[(i, g_)] == 0 and g_ == last_gen:
             never.append(i)
         try:
             c.close()
@@ -532,6 +556,9 @@ def execute(trace, ctx=None):
             res.obs = ['two-rounds-first']
             return res
         val = val[2]
+        two_rounds_done = True
+    else:
+        two_rounds_done = False
     n_leaves = len(set(used))
 
     # ---- observations (no set iteration, nothing address dependent) ----
@@ -565,16 +592,14 @@ def execute(trace, ctx=None):
             raise Violation('no-termination', 'waiter never completes: nothing runnable, nothing scheduled (finished=%s)' % finished)
         if kind == 'stepcap':
             raise Violation('no-termination', 'waiter exceeded %d loop iterations' % loop.step_cap)
-        if not faulty:
+        if not faulty or two_rounds_done:
             if kind != 'ok':
                 raise Violation('unexpected-exception', 'waiter raised %s: %s' % (type(val).__name__, val))
             if not _same(val, exp):
                 raise Violation('wrong-result', 'got %r expected %r (completion order %s)' % (val, exp, finished))
             for i in sorted(set(used)):
-                if leaves[i]['kind'] in ('sleep', 'imm', 'gen', 'twostage', 'dep', 'nested', 'task') and started[i] != 1:
-                    if leaves[i]['kind'] == 'shared':
-                        continue
-                    raise Violation('leaf-start-count', 'leaf %d (%s) started %d times' % (i, leaves[i]['kind'], started[i]))
+                if leaves[i]['kind'] in ('sleep', 'imm', 'gen', 'twostage', 'dep', 'nested', 'task') and started[(i, last_gen)] != 1:
+                    raise Violation('leaf-start-count', 'leaf %d (%s) started %d times' % (i, leaves[i]['kind'], started[(i, last_gen)]))
             if never:
                 raise Violation('leaf-start-count', 'coroutine leaves never awaited: %s' % never)
         else:
@@ -798,7 +823,7 @@ RULE = ('one case = one (structure, leaf kinds, delays, fault list, scheduler ta
         'non-trivial = at least 2 awaitable leaves and, in a fault configuration, at least one fault that actually fired; '
         'distinct = distinct digest of (trace, observed completion order, result)')
 PROBES = ['later-listed-completes-first', 'tie-broken-by-scheduler', 'timer-fired-late', 'dict-values-complete-out-of-key-order',
-          'nested-depth>=3', 'same-awaitable-twice', 'leaf-depends-on-other-leaf', 'second-round-on-same-containers', 'same-container-twice']
+          'nested-depth>=3', 'same-awaitable-twice', 'leaf-depends-on-other-leaf', 'second-round-on-same-containers', 'same-container-twice', 'second-round-after-failed-first']
 TIERS = {'quick': {'runs': 40000, 'wallcap': 45}, 'thorough': {'runs': 4000000, 'wallcap': 780}}
 ASSUMPTIONS = ['only legal asyncio schedules are generated: FIFO call_soon, timers never early, seeded lateness and tie order',
                'only the waiter clause of C19 is decided here; the lifting/zipper/as_list clauses are pure and not covered']
